@@ -7,7 +7,7 @@ dest=/verif/seeded/$prop-${SEED_PREFIX:-}$m
 mkdir -p $dest
 conf=$(/verif/tools/seed_confirm.sh $wt $m 2>&1)
 echo "$conf" | grep -v "^WARNING" | tr '\n' ' '; echo
-ev=$(/verif/tools/seed_eval.sh $wt/mutations/$m/patch.diff $checks 2>&1 | grep -v "^WARNING")
+ev=$(/verif/tools/${SEED_EVAL:-seed_eval.sh} $wt/mutations/$m/patch.diff $checks 2>&1 | grep -v "^WARNING")
 echo "$ev"
 cp $wt/mutations/$m/patch.diff $dest/patch.diff
 rm -rf $dest/demo; mkdir -p $dest/demo
